@@ -38,9 +38,13 @@ def handle (op : String) (j : Json) : Option (R Json) :=
       let nw ← getNat j "nw"; let sh ← getInts j "shape"
       let img ← getRats j "img"
       let qe ← qeOfJson (← j.getObjVal? "qe")
+      let ns := match optVal j "ns" with | some (Json.num n) => n.mantissa.toNat | _ => nw
       match qe.asArray nw with
       | none => pure (errJ "AssertionError")
-      | some q => pure (okJ [("out", imgToJson sh[0]! sh[1]! (collectCharge nw (cube sh[0]! sh[1]! img) q))])
+      | some q =>
+        match collectChargeChecked ns nw (cube sh[0]! sh[1]! img) q with
+        | none => pure (errJ "ValueError")
+        | some f => pure (okJ [("out", imgToJson sh[0]! sh[1]! f)])
   | "det.bayer" => some do
       let nw ← getNat j "nw"; let sh ← getInts j "shape"
       let img ← getRats j "img"
